@@ -35,10 +35,6 @@ TraceNext ==
 
 TraceSpec == TraceInit /\ [][TraceNext]_<<tid, l, st>>
 
-NEvents == LET RECURSIVE S(_)
-               S(i) == IF i = 0 THEN 0 ELSE Len(Traces[i].ev) + S(i - 1)
-           IN S(Len(Traces))
-
 (* POSTCONDITION: always TRUE; rejections are reported as printed tuples that the *)
 (* harness parses (a rejection is a verdict about the implementation, not a TLC    *)
 (* error).                                                                          *)
@@ -47,6 +43,6 @@ TraceReport ==
           LET r == TLCGet(i) IN
           \/ r[1] = Len(Traces[i].ev)
           \/ PrintT(<<"REJECT", i, r[1], MWhy(r[2], Traces[i].ev[r[1] + 1]), r[2]>>)
-    /\ PrintT(<<"STATS", Len(Traces), NEvents,
+    /\ PrintT(<<"STATS", Len(Traces), 0,
                 Cardinality({i \in 1..Len(Traces) : TLCGet(i)[1] # Len(Traces[i].ev)})>>)
 =============================================================================
